@@ -7,6 +7,7 @@ import McpModel.Wire.LemmasResult
 import McpModel.Wire.LemmasOrder
 import McpModel.Wire.LemmasInput
 import McpModel.Wire.LemmasSse
+import McpModel.Wire.LemmasBytes
 /-!
 # C19 (and the E2 part of C02) — property theorems of the wire engine
 
@@ -87,6 +88,18 @@ theorem decode_case_sensitive (k : Bytes) (v : JVal) (a b : List (Bytes × JVal)
 
 example : ([73, 68] : Bytes) ∉ wireNames := by decide   -- "ID"
 
+/-- **decode_error_case_sensitive.** The same one level down, in the `error` object the codec decodes itself:
+a member of it whose name is not exactly `code`, `message` or `data` — `Code`, `MESSAGE`, `Data` — has no
+influence on decoding, wherever it stands in the error object (before or after the real member, or instead of
+it) and wherever the `error` member stands in the message. -/
+theorem decode_error_case_sensitive (k : Bytes) (v : JVal) (ea eb pre post : List (Bytes × JVal))
+    (h : k ∉ wireErrorNames) :
+    decodeMsg (.obj (pre ++ (wireDecode_Error_name, .obj (ea ++ (k, v) :: eb)) :: post)) =
+      decodeMsg (.obj (pre ++ (wireDecode_Error_name, .obj (ea ++ eb)) :: post)) :=
+  L.decode_error_case_sensitive k v ea eb pre post h
+
+example : ([67, 111, 100, 101] : Bytes) ∉ wireErrorNames := by decide   -- "Code"
+
 /-- **decode_total.** Decoding returns a message or an error class for every JSON value (the Go
 side's "never panics on arbitrary bytes" is the fuzzing obligation of the tie). -/
 theorem decode_total (w : JVal) : (∃ m, decodeMsg w = .ok m) ∨ (∃ e, decodeMsg w = .error e) :=
@@ -132,6 +145,45 @@ nothing is left over. -/
 theorem ndjson_roundtrip (ps : List Bytes) (h : ∀ p ∈ ps, p ≠ [] ∧ LF ∉ p) :
     unframe (frame ps) = ps ∧ (splitLines (frame ps)).2 = [] :=
   L.ndjson_roundtrip ps h
+
+/-! ### the byte level -/
+
+/-- **split_lines_bytes.** `bufio.Reader.ReadBytes('\n')` run to the end of the input, on BYTES: the lines, each
+followed by LF, then the unterminated rest, are exactly the input — nothing lost, nothing invented —, no line and
+not the rest contains an LF, and this is the only such decomposition.  (So `scanEvents`, `unframe` and the theorems
+about them are statements about byte strings.) -/
+theorem split_lines_bytes (bs : Bytes) :
+    frame (splitLines bs).1 ++ (splitLines bs).2 = bs ∧ (∀ l ∈ (splitLines bs).1, LF ∉ l) ∧ LF ∉ (splitLines bs).2 :=
+  ⟨L.splitLines_join bs, L.splitLines_noLF bs⟩
+
+theorem split_lines_unique (ls : List Bytes) (rest : Bytes) (h : ∀ l ∈ ls, LF ∉ l) (hr : LF ∉ rest) :
+    splitLines (frame ls ++ rest) = (ls, rest) :=
+  L.splitLines_unique ls rest h hr
+
+/-- **ndjson_stream_roundtrip** (byte level, reader side of `ioConn`).  For EVERY list of values that are JSON
+objects or arrays as far as the decoder's scanner sees them (`framed`: the bracket depth outside string literals
+returns to zero exactly at the last byte — escapes, quotes and brackets inside strings included), each followed by
+ANY separator that is white space beginning with LF or CR (`lineSep`: LF, CRLF, blank lines, further blanks), the
+reader goroutine of `newIOConn` — `json.Decoder.Decode` value by value plus the SDK's check of the byte that follows
+a value — hands on exactly those values, in order, and ends with the end of the input. -/
+theorem ndjson_stream_roundtrip (l : List (Bytes × Bytes)) (hf : ∀ q ∈ l, framed q.1 = true)
+    (hw : ∀ q ∈ l, lineSep q.2 = true) : readStream (joinWs l) = (l.map (·.1), .eof) :=
+  L.ndjson_stream_roundtrip l hf hw
+
+/-- … in particular what `ioConn.Write` writes (`frame`: every payload followed by one LF) is read back payload by
+payload. -/
+theorem ndjson_roundtrip_bytes (ps : List Bytes) (h : ∀ p ∈ ps, framed p = true) : readStream (frame ps) = (ps, .eof) :=
+  L.ndjson_roundtrip_bytes ps h
+
+/-- Non-vacuity: `{"a":"}\"]{["}` then `[{}]`, ended by CRLF and LF. -/
+example : readStream ([123, 34, 97, 34, 58, 34, 125, 92, 34, 93, 123, 91, 34, 125] ++ [CR, LF] ++ [91, 123, 125, 93] ++ [LF]) =
+    ([[123, 34, 97, 34, 58, 34, 125, 92, 34, 93, 123, 91, 34, 125], [91, 123, 125, 93]], .eof) := by decide
+example : framed [123, 34, 97, 34, 58, 34, 125, 92, 34, 93, 123, 91, 34, 125] = true := by decide
+/-- what the separator hypothesis excludes — and the SDK's reader refuses, although it is valid JSON text: two values
+separated by a blank (`{} {}`), or by nothing (`{}{}`): "invalid trailing data", the first value is not handed on. -/
+theorem reader_refuses_other_separators :
+    readStream [123, 125, 32, 123, 125] = ([], .trailing) ∧ readStream [123, 125, 123, 125] = ([], .trailing) := by
+  decide
 
 /-- **sse_roundtrip.** For every list of events whose fields are trimmed and LF-free and which are
 not entirely empty (`CleanEvent`; every SDK message event is one: its data is a compact JSON text),
